@@ -97,7 +97,8 @@ func frontNames(c casePlan) []string {
 }
 
 // frontConfig: the instance under test. targets[i] is the textual destination of connection i.
-func frontConfig(c casePlan, targets []string, ports []uint16, backAddr, upskPath string) []byte {
+// frontServers builds the server objects of the instance under test.
+func frontServers(c casePlan, targets []string, upskPath string) []obj {
 	var servers []obj
 	for si, name := range frontNames(c) {
 		srv := obj{"name": name, "tcpListeners": []obj{listener(c.T(), c.BufSize, c.DisableWait)}}
@@ -134,6 +135,11 @@ func frontConfig(c casePlan, targets []string, ports []uint16, backAddr, upskPat
 		}
 		servers = append(servers, srv)
 	}
+	return servers
+}
+
+func frontConfig(c casePlan, targets []string, ports []uint16, backAddr, upskPath string) []byte {
+	servers := frontServers(c, targets, upskPath)
 
 	var clients []obj
 	defName := "direct"
